@@ -677,9 +677,13 @@ impl Xot {
                         span: _,
                     } => {
                         if prefix.as_str() == "xmlns" {
-                            builder.prefix(local.as_str(), value.as_str(), self);
-                        } else if local.as_str() == "xmlns" {
-                            builder.prefix("", value.as_str(), self);
+                            // a namespace declaration is an attribute: its value
+                            // contains references and is normalized like any other
+                            let uri = parse_attribute(value.as_str().into(), value.start())?;
+                            builder.prefix(local.as_str(), &uri, self);
+                        } else if prefix.is_empty() && local.as_str() == "xmlns" {
+                            let uri = parse_attribute(value.as_str().into(), value.start())?;
+                            builder.prefix("", &uri, self);
                         } else {
                             builder.attribute(prefix, local, value)?;
                         }
